@@ -19,13 +19,28 @@ exception is raised (every evaluation of the call is tried), the chain is read o
 advanced further and read out again.  The store shapes seen from inside every
 evaluation and all read-outs are compared in Coq with `run_history` / `trace` /
 `answer`; doubles are mapped to integers by an order-preserving injection.
+
+The caller's objects, rarely used options, long chains (Model/ReadoutsWorld.v, theorems
+C14_readouts_after_caller_writes, C14_marginal_input_options, C14_size_shortcut_refuted, ...):
+(a) real samplers are built from start / widths / bounds / starting_positions / inverse_mass objects the
+harness keeps (float64 and float32 arrays, lists); between construction, steps, an interrupted step and the
+read-outs the harness -- as a caller would -- modifies those objects IN PLACE (`start += d`, `buf[j] = v`,
+...); the events Call / CallerWrite and all read-outs (burn = 0 included) are compared in Coq with
+`run_events` on `construct` (`check_xcase`).  (b) histories of 20000 ... 52000 (thorough: 250000) steps are
+injected and read out with both estimator types of get_marginal (unimodal = False / True), keyword,
+positional and default arguments, >= 20000 retained values, and with every other read-out; long arrays go
+to Coq packed (three 20-bit values per 63-bit machine integer).
 """
 from __future__ import annotations
 
 import json
 import math
+import random
+import re
 import struct
+import time
 import warnings
+from concurrent.futures import ThreadPoolExecutor
 from fractions import Fraction
 
 import numpy as np
@@ -42,6 +57,8 @@ THEOREMS = ["C14_slice_nth", "C14_slice_length", "C14_slice_positions",
             "C14_interval_fraction",
             "C14_interrupted_call_leaves_chain", "C14_call_evaluations_see_old_chain",
             "C14_history_chain", "C14_readouts_after_interruptions", "C14_nonatomic_step_refuted",
+            "C14_caller_writes_leave_store", "C14_readouts_after_caller_writes", "C14_shared_start_refuted",
+            "C14_marginal_input_options", "C14_size_shortcut_refuted",
             "C14_hmc_squeeze_refuted", "C14_hmc_empty_sample_refuted",
             "C14_get_interval_count_refuted"]
 
@@ -132,6 +149,14 @@ class Patched:
 def to_obs(a):
     """ndarray -> (shape tuple, flat list of ints) or raises ValueError."""
     a = np.asarray(a)
+    if a.size > 64 and a.dtype.kind in "fiu":
+        # long arrays: the same conversion, vectorised (anything unusual goes through the slow path below)
+        f = a.reshape(-1)
+        shape = tuple(int(s) for s in a.shape)
+        if a.dtype.kind != "f":
+            return (shape, [int(v) for v in f.tolist()])
+        if np.isfinite(f).all() and (f == np.round(f)).all() and (np.abs(f) < 2.0 ** 53).all():
+            return (shape, [int(v) for v in f.astype(np.int64).tolist()])
     flat = []
     for v in a.reshape(-1).tolist():
         f = C.frac(v)
@@ -157,7 +182,14 @@ def run_query(ch, q, patch, conv=None):
             elif kind == "sample":
                 out = [ch.get_sample(burn=q["burn"], thin=q["thin"])]
             elif kind == "marginal":
-                m = ch.get_marginal(q["i"], burn=q["burn"], thin=q["thin"], unimodal=q["unimodal"])
+                call = q.get("call", "kw")
+                if call == "positional":
+                    m = ch.get_marginal(q["i"], q["burn"], q["thin"], q["unimodal"])
+                elif call == "defaults":          # documented defaults: burn = 1, thin = 1 (all samplers)
+                    assert (q["burn"], q["thin"]) == (1, 1)
+                    m = ch.get_marginal(q["i"], unimodal=True) if q["unimodal"] else ch.get_marginal(q["i"])
+                else:
+                    m = ch.get_marginal(q["i"], burn=q["burn"], thin=q["thin"], unimodal=q["unimodal"])
                 out = [m.sample]
             elif kind == "defaults":
                 out = [ch.get_parameter(q["i"]), ch.get_probabilities(), ch.get_sample()]
@@ -166,7 +198,14 @@ def run_query(ch, q, patch, conv=None):
                 kw = {}
                 if q["samples"] is not None:
                     kw["samples"] = q["samples"]
-                s, p = ch.get_interval(interval=q["interval"], burn=q["burn"], thin=q["thin"], **kw)
+                call = q.get("call", "kw")
+                if call == "positional":
+                    s, p = ch.get_interval(q["interval"], q["burn"], q["thin"], q["samples"])
+                elif call == "defaults":          # documented defaults: interval = 0.95, burn = 1, thin = 1, no count
+                    assert (q["interval"], q["burn"], q["thin"], q["samples"]) == (0.95, 1, 1, None)
+                    s, p = ch.get_interval()
+                else:
+                    s, p = ch.get_interval(interval=q["interval"], burn=q["burn"], thin=q["thin"], **kw)
                 out = [s, p]
                 calls = patch.perm_log[mark:]
                 extra["perm"] = calls[-1] if calls else []
@@ -233,13 +272,14 @@ def oracle(kind, npar, rows, probs, q, status, obs, extra):
     got = [(pflat[k], tuple(sflat[k * npar:(k + 1) * npar])) for k in range(m)]
     pool = sorted(((probs[j], tuple(rows[j])) for j in idx), key=lambda pr: pr[0])
     top = pool[cutoff:]
+    pool_set, top_set = set(pool), set(top)
     for pr in got:
-        if pr not in pool:
+        if pr not in pool_set:
             bad.append("get_interval: a returned row does not carry its own log-probability "
                        "(or is not a row of the burned / thinned chain)")
             break
     else:
-        if any(pr not in top for pr in got):
+        if any(pr not in top_set for pr in got):
             bad.append("get_interval: a returned row is not in the requested top fraction")
         if len(set(got)) != len(got):
             bad.append("get_interval: a row is returned twice")
@@ -464,8 +504,8 @@ def h_state(ch, kind):
     return [[zkey(v) for v in w] for w in ch.walker_positions], [zkey(v) for v in ch.walker_probs]
 
 
-def h_open(cfg):
-    ch, post, rng, fn = SC.build(cfg)
+def h_open(cfg, inputs=None):
+    ch, post, rng, fn = SC.build(cfg, inputs=inputs) if inputs is not None else SC.build(cfg)
     hook = CallHook(ch, cfg["kind"])
     post.delay = hook                      # called from inside RecordingPosterior.__call__
     if post.gfn is not None:
@@ -839,6 +879,823 @@ def replay_scenario(c):
     return 1 if bad else 0
 
 
+# ---------------------------------------------------------------- Model/ReadoutsWorld.v: common Coq side
+X_HEADER = """From Coq Require Import List ZArith Uint63.
+From IT Require Import Model.Readouts Model.ReadoutsSteps Model.ReadoutsWorld.
+Import ListNotations.
+Open Scope Z_scope.
+"""
+PACK_BITS = 20
+PACK_MIN = 1500         # arrays longer than this are handed to Coq packed (when their values fit)
+_XRES = re.compile(r"verif_result_(\d+)\s*=\s*(.*?)\s*:\s*list\s+nat", re.S)
+
+
+def pack(vals):
+    """Values 0 <= v < 2^20, three per 63-bit machine integer (most significant first), in chunks
+    `(count, words)`: the argument of Model.ReadoutsWorld.unpack."""
+    chunks = []
+    for k in range(0, len(vals), 15000):
+        c = vals[k:k + 15000]
+        t = c + [0, 0]
+        words = [(t[j] << 40) | (t[j + 1] << 20) | t[j + 2] for j in range(0, len(c), 3)]
+        chunks.append(f"({len(c)}%nat, [{'; '.join(map(str, words))}]%uint63)")
+    return "[" + "; ".join(chunks) + "]"
+
+
+def packable(vals):
+    return all(0 <= v < (1 << PACK_BITS) for v in vals)
+
+
+def coq_xobs(o):
+    shp, flat = o
+    if len(flat) > PACK_MIN and packable(flat):
+        body = f"Packed {pack(flat)}"
+    else:
+        body = f"Lit {C.clist([C.cz(v) for v in flat])}"
+    return f"({C.clist([C.cnat(s) for s in shp])}, {body})"
+
+
+def coq_xquery(kind, n, q, extra):
+    if q["q"] == "marginal":
+        return f"XMarginal {C.cbool(q['unimodal'])} {q['i']} {q['burn']} {q['thin']}"
+    return f"XQ ({coq_query(kind, n, q, extra)})"
+
+
+def run_big_case_files(paths, jobs=14, timeout=900):
+    """C.run_case_files with the stack limit of coqc raised (lists of 10^5 entries are evaluated by
+    structural recursion).  Every `Eval` of these files is a list of failure codes."""
+    def one(p):
+        # a smaller minor heap than coqc's default 256 MB: these files are large, the machine may be shared
+        cmd = ["bash", "-c", 'ulimit -s unlimited 2>/dev/null || ulimit -s "$(ulimit -H -s)" 2>/dev/null; '
+                             'export OCAMLRUNPARAM="${OCAMLRUNPARAM:-s=4M}"; '
+                             'exec timeout "$0" coqc "$@"', str(timeout)] + C.COQFLAGS + ["-noglob", str(p)]
+        rc, out, _ = C.sh(cmd, timeout=timeout + 30)
+        if rc in (137, -9):      # killed from outside (memory pressure on a shared machine): once more
+            time.sleep(5)
+            rc, out, _ = C.sh(cmd, timeout=timeout + 30)
+        if rc != 0:
+            return False, {}, out[-3000:]
+        res = {}
+        for m in _XRES.finditer(out):
+            res[int(m.group(1))] = [int(x) for x in re.findall(r"\d+", re.sub(r"%nat", "", m.group(2)))]
+        return True, res, out[-3000:]
+    if not paths:
+        return []
+    with ThreadPoolExecutor(max_workers=jobs) as ex:
+        return list(ex.map(one, paths))
+
+
+def content_kind(bad):
+    return ("ndim" if "dimensions" in bad[0] else "exception" if "raised" in bad[0] else
+            "shape" if "shape" in bad[0] else "content")
+
+
+# ---------------------------------------------------------------- long chains, rarely used options
+LONG_MIN = 20000        # retained values from which the long-chain queries start
+
+
+def long_history(gen_seed, n_generated, npar, n=None):
+    """Distinct values below 2^20 from a seeded generator; a shorter chain is a prefix."""
+    rg = random.Random(gen_seed)
+    vals = rg.sample(range(1 << PACK_BITS), n_generated * npar)
+    probs = rg.sample(range(1 << PACK_BITS), n_generated)
+    n = n_generated if n is None else n
+    return [vals[k * npar:(k + 1) * npar] for k in range(n)], probs[:n]
+
+
+def long_queries(r, kind, n, npar, nbig):
+    col = kind in COLMAJOR
+    i = lambda: r.randrange(npar)
+    P0 = (0, 1)
+    P1 = (n - LONG_MIN - r.randint(0, min(500, n - LONG_MIN)), 1)  # just over 20000 retained
+    P2 = (r.randint(0, 50), r.choice([2, 3]))
+    P3 = (r.randint(0, n // 2), r.randint(max(n // 400, 2), max(n // 100, 3)))   # a few hundred retained
+
+    def M(pr, u, call="kw"):
+        return {"q": "marginal", "i": i(), "burn": pr[0], "thin": pr[1], "unimodal": u, "call": call}
+
+    def G(what, pr, **kw):
+        d = {"q": what, "burn": pr[0], "thin": pr[1]}
+        if what == "param":
+            d["i"] = i()
+        d.update(kw)
+        return d
+
+    def I(pr, f, samples, call="kw"):
+        return {"q": "interval", "burn": pr[0], "thin": pr[1], "interval": f, "samples": samples, "call": call}
+
+    # the rarely used estimator type on >= 20000 retained values: every way of passing the arguments
+    qs = [M(P0, True), M(P1, True, "positional"), M((1, 1), r.random() < 0.6, "defaults"), M(P2, True), M(P3, True)]
+    big = [M(P0, False), M(P1, False, "positional"), G("param", P0), G("param", P1), G("probs", P0), G("probs", P1)]
+    if not col:     # the column-major model transposes with nth: quadratic in the number of retained rows
+        big += [G("sample", P0), G("sample", P1), I(P0, r.choice([0.95, 0.5, 0.999]), None),
+                I(P1, r.uniform(0.05, 0.95), None, "positional"), I(P1, 0.9, n + 3),
+                I((1, 1), 0.95, None, "defaults"), {"q": "defaults", "i": i()}]
+    qs += r.sample(big, min(nbig, len(big)))
+    # small read-outs of a long chain
+    qs += [G("param", P3), G("probs", P3), G("sample", P3), G("param", P2), G("probs", P2),
+           I(P3, r.choice(INTERVALS), None), I(P0, 0.999, 300), I(P2, 1 - 2.0 ** -53, r.randint(50, 400), "positional"),
+           I(P3, 0.95, r.randint(20, 60))]
+    return qs
+
+
+def gen_long_cases(r, tier):
+    """(the getters of GibbsChain and PcaChain are the same inherited functions: one of the two per run)"""
+    cases = []
+    if tier == "quick":
+        kinds = [r.choice(["Gibbs", "Pca"]), "Hmc", "Ens"]
+        sizes = [r.randint(LONG_MIN, LONG_MIN + 4000) for _ in kinds]
+        sizes[r.randrange(len(kinds))] = r.randint(30000, 52000)
+        plan = [(k, n, 1) for k, n in zip(kinds, sizes)]
+    else:
+        plan = [(k, r.randint(LONG_MIN, 40000), 3) for k in SAMPLERS * 2]
+        plan += [(r.choice(SAMPLERS), r.randint(60000, 130000), 1), (r.choice(["Hmc", "Ens"]), r.randint(40000, 80000), 2)]
+    for kind, n, nbig in plan:
+        npar = r.choice([1, 2]) if n <= 30000 else 1
+        gen = {"gen_seed": r.randrange(2 ** 32), "n_generated": n, "npar": npar}
+        rows, probs = long_history(gen["gen_seed"], n, npar)
+        cases.append({"kind": kind, "npar": npar, "rows": rows, "probs": probs, "gen": gen,
+                      "queries": long_queries(r, kind, n, npar, nbig)})
+    return cases
+
+
+R_KINDS = ["ensemble", "metro", "gibbs", "pca", "hmc"]
+
+
+def real_long_run(kind, seed, npar, target):
+    """A real sampler (its own random generator seeded, adaptation of widths / directions / step size left on)
+    advanced by take_step() / advance(1) until it holds >= target entries -- an EnsembleSampler with 200-260
+    walkers reaches 20000 entries in about 90 iterations.  The chain it should then hold is recorded from the
+    sampler's STATE after every call (get_last / theta[-1] / walker positions), never from the read-outs.
+    -> (sampler, rows, probs) as floats."""
+    from inference.mcmc import GibbsChain, PcaChain, HamiltonianChain, EnsembleSampler
+    from inference.mcmc.gibbs import MetropolisChain
+    rg = np.random.default_rng(seed)
+    mu, sig = np.array([1.0, -2.0, 0.5][:npar]), np.array([1.0, 2.0, 0.5][:npar])
+
+    def post(t):
+        return float(-0.5 * (((np.asarray(t, dtype=float) - mu) / sig) ** 2).sum())
+
+    def grad(t):
+        return -(np.asarray(t, dtype=float) - mu) / sig ** 2
+    rows, probs = [], []
+
+    def note():
+        if kind == "ensemble":
+            rows.extend(ch.walker_positions.tolist())
+            probs.extend(ch.walker_probs.tolist())
+        elif kind == "hmc":
+            rows.append([float(v) for v in ch.theta[-1]])
+            probs.append(float(ch.probs[-1]))
+        else:
+            rows.append([float(v) for v in ch.get_last()])
+            probs.append(float(ch.probs[-1]))
+    with warnings.catch_warnings():
+        warnings.simplefilter("ignore")
+        if kind == "ensemble":
+            nw = int(rg.integers(200, 261))
+            ch = EnsembleSampler(posterior=post, starting_positions=rg.normal(size=(nw, npar)) * sig + mu,
+                                 display_progress=False)
+            ch.rng = rg
+        elif kind == "hmc":
+            ch = HamiltonianChain(posterior=post, start=mu + 0.5, grad=grad, display_progress=False)
+            ch.rng, ch.steps = rg, 3
+            note()
+        else:
+            cls = {"metro": MetropolisChain, "gibbs": GibbsChain, "pca": PcaChain}[kind]
+            ch = cls(posterior=post, start=mu + 0.5, widths=sig.copy(), display_progress=False)
+            S.attach_rng(ch, rg)
+            note()
+        k = 0
+        with S.quiet():
+            while len(probs) < target:
+                k += 1
+                if k % 7 == 0:
+                    ch.advance(1)
+                else:
+                    ch.take_step()
+                note()
+    return ch, rows, probs
+
+
+def rank_map(rows, probs):
+    """Order-preserving injection of the doubles of this chain into 0 .. (number of distinct values) - 1."""
+    vals = sorted(set(v for rw in rows for v in rw) | set(probs))
+    return {v: k for k, v in enumerate(vals)}
+
+
+def real_long_case(r, kind, n_queries_big):
+    npar = r.choice([1, 2])
+    run = {"kind": kind, "seed": r.randrange(2 ** 32), "npar": npar, "target": r.randint(LONG_MIN + 200, LONG_MIN + 3000)}
+    ch, frows, fprobs = real_long_run(kind, run["seed"], npar, run["target"])
+    rk = rank_map(frows, fprobs)
+
+    def conv(a):
+        a = np.asarray(a)
+        try:
+            return (tuple(int(s) for s in a.shape), [rk[v] for v in a.reshape(-1).tolist()])
+        except KeyError as e:
+            raise ValueError(f"a returned value ({e.args[0]!r}) is not an entry of the chain at all")
+    rows, probs = [[rk[v] for v in rw] for rw in frows], [rk[v] for v in fprobs]
+    qs = long_queries(r, H_TAG[kind], len(probs), npar, n_queries_big)
+    if len(set(probs)) != len(probs):   # walkers that did not move: equal log-probabilities, argsort order open
+        qs = [q for q in qs if q["q"] != "interval"]
+    return {"kind": H_TAG[kind], "name": H_NAME[kind], "npar": npar, "rows": rows, "probs": probs,
+            "gen": {"real_run": run}, "queries": qs, "chain": ch, "conv": conv}
+
+
+def coq_long_case(case, results):
+    """-> (term of type xcase, indices of the queries in it)"""
+    kind, npar, rows, probs = case["kind"], case["npar"], case["rows"], case["probs"]
+    n = len(rows)
+    if kind in COLMAJOR:
+        origin = f"InjectedPacked {C.clist([pack([rw[i] for rw in rows]) for i in range(npar)])} {pack(probs)}"
+    else:
+        origin = f"InjectedPackedRows {C.cnat(n)} {pack([v for rw in rows for v in rw])} {pack(probs)}"
+    qos, kept = [], []
+    for qi, (q, (status, obs, extra)) in enumerate(zip(case["queries"], results)):
+        if status == "ok":
+            qos.append(f"({coq_xquery(kind, n, q, extra)}, {C.clist([coq_xobs(o) for o in obs])})")
+            kept.append(qi)
+    return (f"({kind}, {C.cnat(npar)}, {origin},\n  [([], {C.clist(qos, ';' + chr(10) + '   ')})])", kept)
+
+
+def long_describe(case, n, q, status, obs, extra):
+    def short(o):
+        return {"shape": list(o[0]), "first_entries": o[1][:6], "entries": len(o[1])}
+    if "chain" in case:
+        run = case["gen"]["real_run"]
+        return {"sampler": case["name"], "n_parameters": case["npar"], "rows_generated": {"real_run": run},
+                "history": f"{case['name']} with its random generator seeded, advanced by take_step() (every 7th call "
+                           f"advance(1)) until it holds >= {run['target']} entries (props/c14.py real_long_run); "
+                           f"values are given as ranks among the doubles of the chain; then this query",
+                "query": q, "perm": extra.get("perm"), "impl_status": status,
+                "impl_output": obs if status != "ok" else [short(o) for o in obs]}
+    return {"sampler": case["kind"], "n_parameters": case["npar"],
+            "rows_generated": dict(case["gen"], n=n),
+            "history": f"history of {n} steps (distinct integers from random.Random(gen_seed), see "
+                       f"props/c14.py long_history) written into the object's attributes, then this query",
+            "query": q, "perm": extra.get("perm"), "impl_status": status,
+            "impl_output": obs if status != "ok" else [short(o) for o in obs]}
+
+
+def long_probe(case, n, q, patch):
+    """The query on the first n steps of the case's history; -> (failures, status, obs, extra)."""
+    rows, probs = case["rows"][:n], case["probs"][:n]
+    ch = build(case["kind"], case["npar"], rows, probs)
+    status, obs, extra = run_query(ch, q, patch)
+    return oracle(case["kind"], case["npar"], rows, probs, q, status, obs, extra), status, obs, extra
+
+
+def long_shrink(case, q, patch, budget=18):
+    """Shortest prefix of the history (by bisection) on which the property still fails for q."""
+    hi, lo = len(case["rows"]), min(q.get("burn", 0), len(case["rows"]) - 1)
+    best = None
+    while hi - lo > 1 and budget > 0:
+        budget -= 1
+        mid = (lo + hi) // 2
+        try:
+            bad, status, obs, extra = long_probe(case, mid, q, patch)
+        except Exception:
+            bad = []
+        if bad:
+            hi, best = mid, (bad, status, obs, extra)
+        else:
+            lo = mid
+    return (hi,) + best if best else None
+
+
+def long_start(rep, tier, patch):
+    """Long injected histories; every read-out, both estimator types of get_marginal, all ways of passing
+    the arguments.  Runs the implementation, writes the Coq files and starts coqc on them in the background."""
+    r = C.rng_for(PROP, "long-chains")
+    cases = gen_long_cases(r, tier)
+    # ... and real samplers advanced that far (quick: one of them)
+    for kind in ([r.choice(R_KINDS[:1] * 2 + R_KINDS[:4])] if tier == "quick" else R_KINDS):
+        try:
+            cases.append(real_long_case(r, kind, 1 if tier == "quick" else 3))
+        except Exception as e:
+            rep.violation(f"C14/{H_NAME[kind]}/long-run/exception",
+                          f"{H_NAME[kind]}: advancing a real sampler to {LONG_MIN} entries raised {e!r}",
+                          {"theorem_or_correspondence": "Model.ReadoutsSteps (histories of calls)",
+                           "case": {"sampler": H_NAME[kind]}}, False)
+    results, terms, files = [], [], []
+    for ci, case in enumerate(cases):
+        n = len(case["rows"])
+        ch = case["chain"] if "chain" in case else build(case["kind"], case["npar"], case["rows"], case["probs"])
+        res = [run_query(ch, q, patch, conv=case.get("conv")) for q in case["queries"]]
+        results.append(res)
+        rep.count(f"long:sampler={case.get('name', case['kind'])}" + (" (real run)" if "chain" in case else ""))
+        rep.count("long:n=" + ("20000-24000" if n <= 24000 else "24001-60000" if n <= 60000 else ">60000"))
+        for q in case["queries"]:
+            left = len(range(q["burn"], n, q["thin"])) if "burn" in q else n - DEFAULT_BURN[case["kind"]]
+            what = q["q"] + ("+count" if q.get("samples") is not None else "") + \
+                (("/unimodal" if q["unimodal"] else "/kde") if q["q"] == "marginal" else "")
+            rep.count("long:query=" + what)
+            rep.count("long:retained" + (">=20000" if left >= LONG_MIN else "<20000"))
+            rep.count("long:arguments=" + q.get("call", "kw"))
+            rep.case((case["kind"], repr(case["gen"]), sorted(q.items(), key=str)), nontrivial=True)
+        txt, kept = coq_long_case(case, res)
+        terms.append(kept)
+        files.append(C.write_case_file(PROP, f"long_{ci}", X_HEADER, f"Definition the_case : xcase :=\n {txt}.",
+                                       ["xcase_failures the_case"]))
+        del txt
+        # long observed arrays are not kept (memory): such a query is deterministic and is run again if needed
+        results[ci] = [(s_, (None if s_ == "ok" and sum(len(o[1]) for o in o_) > 5000 else o_), e_)
+                       for s_, o_, e_ in res]
+    ex = ThreadPoolExecutor(max_workers=1)
+    return {"cases": cases, "results": results, "terms": terms, "files": files,
+            "future": ex.submit(run_big_case_files, files, 2), "executor": ex}
+
+
+def long_finish(rep, st, patch):
+    """Collects the Coq verdicts on the long histories.  Returns the number of read-outs validated in Coq."""
+    cases, results, terms, files = st["cases"], st["results"], st["terms"], st["files"]
+    outs = st["future"].result()
+    st["executor"].shutdown()
+    suspicious = []
+    n_checked = 0
+    for ci, (p, (ok, res, log)) in enumerate(zip(files, outs)):
+        for qi, rr in enumerate(results[ci]):
+            if rr[0] != "ok":
+                suspicious.append((ci, qi))
+        if not ok or 0 not in res:
+            rep.obligation(False)
+            rep.violation("C14/correspondence-run", f"case file {p.name} did not evaluate",
+                          {"theorem_or_correspondence": f"correspondence file {p.name}", "log": log}, False)
+            continue
+        rep.obligation(True)
+        n_checked += len(terms[ci])
+        suspicious += [(ci, terms[ci][code % 1000]) for code in res[0] if code % 1000 != 999]
+    rep.coverage["long_chain_histories"] = len(cases)
+    rep.coverage["long_chain_lengths"] = [len(c["rows"]) for c in cases]
+    rep.coverage["long_chain_disagreements"] = len(suspicious)
+
+    seen = set()
+
+    def report(ci, qi, from_coq):
+        case = cases[ci]
+        q = case["queries"][qi]
+        status, obs, extra = results[ci][qi]
+        if obs is None:
+            ch = case["chain"] if "chain" in case else build(case["kind"], case["npar"], case["rows"], case["probs"])
+            status, obs, extra = run_query(ch, q, patch, conv=case.get("conv"))
+        n = len(case["rows"])
+        bad = oracle(case["kind"], case["npar"], case["rows"], case["probs"], q, status, obs, extra)
+        key = f"C14/{case.get('name', case['kind'])}/long/{q['q']}" + ("-count" if q.get("samples") is not None else "") + \
+              ("-unimodal" if q.get("unimodal") else "")
+        if bad:
+            key += "/" + content_kind(bad)
+        elif not from_coq:
+            return
+        if key in seen:
+            return
+        seen.add(key)
+        if bad:
+            small = long_shrink(case, q, patch) if "chain" not in case else None
+            if small:
+                n, bad, status, obs, extra = small
+            rep.violation(key, f"{case.get('name', case['kind'])} with a chain of {n} "
+                               + ("entries produced by the sampler itself" if "chain" in case else "steps")
+                               + f", {q['q']}"
+                               + (f" (unimodal={q['unimodal']})" if q["q"] == "marginal" else "")
+                               + f" burn={q.get('burn')} thin={q.get('thin')} arguments passed as "
+                               + f"{q.get('call', 'kw')}: " + "; ".join(bad[:2]),
+                          {"case": long_describe(case, n, q, status, obs, extra)}, True)
+        else:
+            rep.violation(key + "/correspondence",
+                          "implementation and model disagree on a read-out of a long chain, but the property was "
+                          "not seen to fail on this input",
+                          {"theorem_or_correspondence": "Model.ReadoutsWorld.check_xcase (xanswer)",
+                           "case": long_describe(case, n, q, status, obs, extra)}, False)
+
+    for ci, qi in sorted(set(suspicious)):
+        report(ci, qi, True)
+    # [R] second opinion: the property by direct indexing on a slice of the agreeing queries
+    sus = set(suspicious)
+    for ci, case in enumerate(cases):
+        for qi in range(ci % 3, len(case["queries"]), 3):
+            if (ci, qi) not in sus:
+                report(ci, qi, False)
+    return n_checked
+
+
+# ---------------------------------------------------------------- the caller goes on using its own objects
+W_BUFS = {"gibbs": ["start", "widths"], "metro": ["start", "widths"], "pca": ["start", "widths", "bounds"],
+          "hmc": ["start", "bounds", "inv_mass"], "ensemble": ["positions", "bounds"]}
+W_FORMS = [None, None, "f32", "flist"]
+
+
+def w_objects(inputs, kind):
+    """[(name, object)]: the mutable objects the caller handed to the constructor (a start buffer first)."""
+    out = []
+    for name in W_BUFS[kind]:
+        o = inputs.get(name)
+        if o is None:
+            continue
+        if name == "bounds":
+            out += [("bounds.lower", o[0]), ("bounds.upper", o[1])]
+        else:
+            out.append((name, o))
+    return [(nm, o) for nm, o in out if isinstance(o, (np.ndarray, list))]
+
+
+def w_keys(o):
+    return [zkey(float(v)) for v in (o.reshape(-1).tolist() if isinstance(o, np.ndarray) else o)]
+
+
+def w_op(r, name):
+    if name in ("start", "positions"):
+        return r.choice([{"op": "shift_all", "d": r.randint(1, 4) / 8.0},
+                         {"op": "shift_one", "j": r.randrange(64), "d": r.choice([-1, 1]) * r.randint(1, 4) / 8.0},
+                         {"op": "shift_all", "d": r.randint(1, 4) / 8.0}])
+    if name == "widths":
+        return r.choice([{"op": "scale_all", "f": 2.0}, {"op": "scale_one", "j": r.randrange(64), "f": 2.0}])
+    if name == "bounds.lower":
+        return {"op": "shift_all", "d": -r.randint(1, 4) / 8.0}
+    if name == "bounds.upper":
+        return {"op": "shift_all", "d": r.randint(1, 4) / 8.0}
+    return {"op": "scale_all", "f": 4.0}          # inv_mass
+
+
+def w_apply(o, op):
+    """What the caller does to ITS OWN object, in place."""
+    if isinstance(o, np.ndarray):
+        flat = o.reshape(-1)
+        assert np.shares_memory(flat, o)
+        if op["op"] == "shift_all":
+            o += op["d"]
+        elif op["op"] == "scale_all":
+            o *= op["f"]
+        elif op["op"] == "shift_one":
+            flat[op["j"] % flat.size] += op["d"]
+        else:
+            flat[op["j"] % flat.size] *= op["f"]
+    else:
+        js = range(len(o)) if op["op"].endswith("_all") else [op["j"] % len(o)]
+        for j in js:
+            o[j] = o[j] + op["d"] if op["op"].startswith("shift") else o[j] * op["f"]
+
+
+def w_drivable(cfg, nsteps):
+    """Can the sampler of this configuration be stepped at all (nobody touching anything)?  A few random
+    configurations are too hard for a sampler (e.g. HamiltonianChain gives up after 200 rejected
+    proposals): that is not a matter of the read-outs."""
+    try:
+        ch, _ = h_open(cfg)
+        for _ in range(nsteps):
+            h_call(ch, "take_step", 1)
+        return True
+    except Exception:
+        return False
+
+
+def w_plan(r, tier, skipped=None):
+    """-> list of (cfg, plan); everything random is fixed here, so that a plan can be replayed."""
+    out = []
+    ncfg = 4 if tier == "quick" else 12
+    for kind in H_KINDS:
+        got = 0
+        for _attempt in range(4 * ncfg):
+            if got >= ncfg:
+                break
+            cfg = SC.make_config(r, kind)
+            forms = {}
+            if got > 0:     # the first configuration of every sampler: float64 arrays throughout (the default)
+                for key in ("start", "widths", "bounds", "positions"):
+                    f = r.choice(W_FORMS)
+                    if f:
+                        forms[key] = f
+            cfg["input_form"] = forms
+            # start / starting_positions are modified between the calls; widths, bounds and inverse_mass only
+            # after the last call: the pinned Bounds / mass objects keep references to the caller's arrays, so
+            # that modifying those changes how the sampler goes on sampling (not a matter of C14)
+            first = ["start", "positions"]
+            names = first + ["widths", "bounds.lower", "bounds.upper", "inv_mass"]
+            segs = [{"steps": 1 if kind == "ensemble" else r.choice([0, 0, 1]), "interrupt": False,
+                     "writes": [dict(w_op(r, nm), buf=nm) for nm in first]},
+                    {"steps": r.randint(1, 3), "interrupt": r.random() < 0.5,
+                     "writes": [dict(w_op(r, nm), buf=nm) for nm in first]},
+                    {"steps": r.randint(1, 2), "interrupt": False,
+                     "writes": [dict(w_op(r, nm), buf=nm) for nm in names]}]
+            plan = {"segments": segs, "exc": r.choice(sorted(H_EXCS))}
+            if not w_drivable(cfg, sum(sp["steps"] for sp in segs) + 1):
+                if skipped is not None:
+                    skipped.append(H_NAME[kind])
+                continue
+            got += 1
+            out.append((cfg, plan))
+    return out
+
+
+def w_scenario(cfg, plan, patch, queries_for):
+    kind, npar = cfg["kind"], cfg["n"]
+    case = {"cfg": cfg, "plan": plan, "kind": H_TAG[kind], "name": H_NAME[kind], "npar": npar,
+            "segments": [], "anomaly": None, "buffers": []}
+    try:
+        inputs = {}
+        ch, hook = h_open(cfg, inputs)
+        objs = w_objects(inputs, kind)
+        case["buffers"] = [nm for nm, _ in objs]
+        case["forms"] = {nm: (f"{type(o).__name__}" + (f"[{o.dtype}]" if isinstance(o, np.ndarray) else "")) for nm, o in objs}
+        case["heap"] = [w_keys(o) for _, o in objs]
+        case["starts"] = [0] if (kind != "ensemble" and objs and objs[0][0] == "start") else []
+        rows, probs = h_chain(ch, kind)
+        case["init"] = (list(rows), list(probs))
+        rows, probs = list(rows), list(probs)
+        written = []
+        for sp in plan["segments"]:
+            events = []
+            for _ in range(sp["steps"]):
+                hook.begin()
+                h_call(ch, "take_step", 1)
+                r_, p_ = h_state(ch, kind)
+                events.append(("call", {"ne": hook.count, "rows": r_, "probs": p_, "crash": 0}, list(hook.shapes)))
+                rows.extend(r_)
+                probs.extend(p_)
+            if sp["interrupt"]:
+                hook.begin()
+                hook.arm(1, H_EXCS[plan["exc"]])
+                try:
+                    h_call(ch, "take_step", 1)
+                except BaseException:
+                    if not hook.fired:
+                        raise
+                if not hook.fired:
+                    case["anomaly"] = "take_step() returned without evaluating the posterior or its gradient"
+                    return case
+                events.append(("call", {"ne": 1, "rows": [], "probs": [], "crash": 1}, list(hook.shapes)))
+            for op in sp["writes"]:
+                if op["buf"] not in case["buffers"]:
+                    continue
+                b = case["buffers"].index(op["buf"])
+                o = objs[b][1]
+                before = w_keys(o)
+                w_apply(o, op)
+                after = w_keys(o)
+                events += [("write", b, j, v) for j, (u, v) in enumerate(zip(before, after)) if u != v]
+                if op["buf"] not in written:
+                    written.append(op["buf"])
+            qs = queries_for(len(case["segments"]), len(probs), list(probs))
+            res = [run_query(ch, q, patch, conv=to_obs_key) for q in qs]
+            case["segments"].append({"events": events, "queries": qs, "results": res, "rows": list(rows),
+                                     "probs": list(probs), "written": list(written)})
+    except Exception as e:
+        case["anomaly"] = f"a constructor, a completed call or an in-place modification of a caller's object raised {e!r}"
+    return case
+
+
+def w_queries(rq, tag, n, npar, probs):
+    pairs = [(0, 1), rq.choice([(1, 1), (0, 2), (rq.randint(0, n), rq.randint(1, n + 1)), (max(n - 1, 0), 1)])]
+    qs = [{"q": "param", "i": i, "burn": 0, "thin": 1} for i in range(npar)]
+    qs += gen_queries(rq, tag, n, npar, pairs, dense=False)
+    i = rq.randrange(npar)
+    qs += [{"q": "marginal", "i": i, "burn": 0, "thin": 1, "unimodal": True},
+           {"q": "marginal", "i": rq.randrange(npar), "burn": 0, "thin": 1, "unimodal": False, "call": "positional"},
+           {"q": "marginal", "i": i, "burn": 1, "thin": 1, "unimodal": rq.random() < 0.5, "call": "defaults"}]
+    if len(set(probs)) == len(probs):
+        qs += [{"q": "interval", "burn": 0, "thin": 1, "interval": 1 - 2.0 ** -53, "samples": None, "call": "positional"},
+               {"q": "interval", "burn": 1, "thin": 1, "interval": 0.95, "samples": None, "call": "defaults"}]
+    else:
+        # equal log-probabilities: argsort order (and the duplicate test of the oracle) is not determined
+        qs = [q for q in qs if q["q"] != "interval"]
+    return qs
+
+
+def coq_wcase(case):
+    """-> (term of type xcase, per segment the indices of the queries that are in the term)"""
+    tag, npar = case["kind"], case["npar"]
+    heap = C.clist([C.clist([C.cz(v) for v in b]) for b in case["heap"]])
+    origin = (f"Constructed {heap} {C.clist([C.cnat(b) for b in case['starts']])} "
+              f"{C.clist([C.cz(v) for v in case['init'][1]])}")
+    segs, kept = [], []
+    for seg in case["segments"]:
+        n = len(seg["probs"])
+        evs = []
+        for e in seg["events"]:
+            if e[0] == "call":
+                evs.append(f"(Call {coq_step(e[1])}, {C.clist([coq_shape(x) for x in e[2]])})")
+            else:
+                evs.append(f"(CallerWrite {e[1]} {e[2]} {C.cz(e[3])}, [])")
+        qos, ks = [], []
+        for qi, (q, (status, obs, extra)) in enumerate(zip(seg["queries"], seg["results"])):
+            if status == "ok":
+                qos.append(f"({coq_xquery(tag, n, q, extra)}, {C.clist([coq_xobs(o) for o in obs])})")
+                ks.append(qi)
+        segs.append(f"({C.clist(evs, ';' + chr(10) + '     ')},\n    {C.clist(qos, ';' + chr(10) + '     ')})")
+        kept.append(ks)
+    return f"({tag}, {C.cnat(npar)}, {origin},\n  {C.clist(segs, ';' + chr(10) + '   ')})", kept
+
+
+def w_history_text(case, si):
+    parts = [f"{case['name']} built from `config` (scripted randomness) with the caller's objects "
+             f"{case.get('forms')}"]
+    for k, sp in enumerate(case["plan"]["segments"][:si + 1]):
+        if sp["steps"]:
+            parts.append(f"{sp['steps']} x take_step()")
+        if sp["interrupt"]:
+            parts.append(f"take_step() whose first evaluation of the posterior / gradient raises {case['plan']['exc']}")
+        ws = [f"{op['buf']}: {op['op']}" for op in sp["writes"] if op["buf"] in case["buffers"]]
+        if ws:
+            parts.append("the caller modifies IN PLACE its own " + ", ".join(ws))
+    return "; ".join(parts) + "; then this query"
+
+
+def w_describe(case, si, q, status, obs, extra):
+    seg = case["segments"][si]
+    return {"sampler": case["name"], "n_parameters": case["npar"],
+            "world_scenario": {"config": SC.describe(case["cfg"]), "plan": case["plan"], "segment": si},
+            "history": w_history_text(case, si),
+            "chain_rows": [[unkey(v) for v in rw] for rw in seg["rows"]],
+            "chain_probs": [unkey(v) for v in seg["probs"]],
+            "query": q, "perm": extra.get("perm"), "impl_status": status,
+            "impl_output": obs if status != "ok" else [[list(o[0]), [unkey(v) for v in o[1]]] for o in obs]}
+
+
+def world_start(rep, tier, patch):
+    """Histories in which the caller goes on modifying the objects it handed to the constructor: runs the
+    implementation, writes the Coq files and starts coqc on them in the background."""
+    r = C.rng_for(PROP, "caller-writes")
+    rq = C.rng_for(PROP, "caller-writes-queries")
+    cases, skipped = [], []
+    plans = w_plan(r, tier, skipped)
+    for name in skipped:
+        rep.count(f"caller_writes:configuration_not_drivable_even_untouched={name}")
+    for cfg, plan in plans:
+        tag = H_TAG[cfg["kind"]]
+        case = w_scenario(cfg, plan, patch, lambda si, n, probs: w_queries(rq, tag, n, cfg["n"], probs))
+        cases.append(case)
+        rep.count(f"caller_writes:sampler={case['name']}")
+        for nm, f in (case.get("forms") or {}).items():
+            rep.count(f"caller_writes:object={nm}:{f}")
+        for seg in case["segments"]:
+            rep.count("caller_writes:in_place_writes", sum(1 for e in seg["events"] if e[0] == "write"))
+            rep.count("caller_writes:calls", sum(1 for e in seg["events"] if e[0] == "call"))
+            for q in seg["queries"]:
+                rep.count("caller_writes:query=" + q["q"] + ("+count" if q.get("samples") is not None else "")
+                          + ("/burn=0" if q.get("burn") == 0 else ""))
+                rep.case((case["name"], repr(plan), cfg["rng_seed"], len(seg["probs"]), sorted(q.items(), key=str)),
+                         nontrivial=True)
+    for case in cases:
+        if case["anomaly"]:
+            rep.violation(f"C14/{case['name']}/caller-write/exception", f"{case['name']}: {case['anomaly']}",
+                          {"theorem_or_correspondence": "Model.ReadoutsWorld (histories of calls and caller writes)",
+                           "case": {"config": SC.describe(case["cfg"]), "plan": case["plan"]}}, False)
+    cases = [c for c in cases if not c["anomaly"]]
+
+    suspicious = set()
+    terms = [coq_wcase(c) for c in cases]
+    for ci, case in enumerate(cases):
+        for si, seg in enumerate(case["segments"]):
+            for qi, rr in enumerate(seg["results"]):
+                if rr[0] != "ok":
+                    suspicious.add((ci, si, qi))
+    files, spans = [], []
+    per = 6
+    for st0 in range(0, len(terms), per):
+        chunk = terms[st0:st0 + per]
+        body = "\n".join(f"Definition c{j} : xcase :=\n {txt}." for j, (txt, _) in enumerate(chunk))
+        files.append(C.write_case_file(PROP, f"world_{len(files)}", X_HEADER, body,
+                                       [f"xcase_failures c{j}" for j in range(len(chunk))]))
+        spans.append((st0, len(chunk)))
+    ex = ThreadPoolExecutor(max_workers=1)
+    return {"cases": cases, "terms": terms, "files": files, "spans": spans, "suspicious": suspicious,
+            "future": ex.submit(run_big_case_files, files, 4), "executor": ex}
+
+
+def world_finish(rep, st):
+    """Collects the Coq verdicts.  Returns the number of read-outs validated in Coq."""
+    cases, terms, files, spans, suspicious = st["cases"], st["terms"], st["files"], st["spans"], st["suspicious"]
+    outs = st["future"].result()
+    st["executor"].shutdown()
+    n_checked = 0
+    for p, (st0, cnt), (ok, res, log) in zip(files, spans, outs):
+        if not ok or any(j not in res for j in range(cnt)):
+            rep.obligation(False)
+            rep.violation("C14/correspondence-run", f"case file {p.name} did not evaluate",
+                          {"theorem_or_correspondence": f"correspondence file {p.name}", "log": log}, False)
+            continue
+        rep.obligation(True)
+        for j in range(cnt):
+            ci = st0 + j
+            n_checked += sum(len(ks) for ks in terms[ci][1])
+            for code in res[j]:
+                si, k = divmod(code, 1000)
+                suspicious.add((ci, si, None if k == 999 else terms[ci][1][si][k]))
+    rep.coverage["caller_write_histories"] = len(cases)
+    rep.coverage["caller_write_disagreements"] = len(suspicious)
+
+    best = set()
+
+    def report(ci, si, qi, from_coq):
+        case = cases[ci]
+        seg = case["segments"][si]
+        q = seg["queries"][qi]
+        status, obs, extra = seg["results"][qi]
+        bad = oracle(case["kind"], case["npar"], seg["rows"], seg["probs"], q, status, obs, extra)
+        key = f"C14/{case['name']}/caller-write/{q['q']}" + ("-count" if q.get("samples") is not None else "")
+        if bad:
+            key += "/" + content_kind(bad)
+        elif not from_coq:
+            return
+        if key in best:
+            return
+        best.add(key)
+        if bad:
+            did = (f"the caller modified in place its own {', '.join(seg['written'])} (the objects it had passed to "
+                   f"the constructor)") if seg["written"] else "construction from the caller's objects"
+            rep.violation(key, f"{case['name']} after {did}, {q['q']} burn={q.get('burn')} thin={q.get('thin')}: "
+                               + "; ".join(bad[:2]),
+                          {"case": w_describe(case, si, q, status, obs, extra)}, True)
+        else:
+            rep.violation(key + "/correspondence",
+                          "implementation and model disagree on a read-out after the caller modified its own objects, "
+                          "but the property was not seen to fail on this input",
+                          {"theorem_or_correspondence": "Model.ReadoutsWorld.check_xcase (construct + run_events + xanswer)",
+                           "case": w_describe(case, si, q, status, obs, extra)}, False)
+
+    shape_only = {}
+    for ci, si, qi in sorted(suspicious, key=lambda t: (len(terms[t[0]][0]), t[1], -1 if t[2] is None else t[2])):
+        if qi is None:
+            shape_only.setdefault(cases[ci]["name"], (cases[ci], si))
+        else:
+            report(ci, si, qi, True)
+    for name, (case, si) in shape_only.items():
+        rep.violation(f"C14/{name}/caller-write/store-shapes/correspondence",
+                      f"{name}: the stored history seen from inside the posterior during a call is not the history "
+                      f"before the call",
+                      {"theorem_or_correspondence": "Model.ReadoutsWorld.check_events (trace)",
+                       "case": {"sampler": name, "config": SC.describe(case["cfg"]), "plan": case["plan"],
+                                "segment": si}}, False)
+    # [R] second opinion: the property by direct indexing on a slice of the agreeing queries
+    for ci, case in enumerate(cases):
+        for si, seg in enumerate(case["segments"]):
+            for qi in range((ci + si) % 3, len(seg["queries"]), 3):
+                if (ci, si, qi) not in suspicious:
+                    report(ci, si, qi, False)
+    if cases and cases[0]["segments"]:
+        seg = cases[0]["segments"][0]
+        rep.sample({"sampler": cases[0]["name"], "caller_objects": cases[0].get("forms"),
+                    "history": w_history_text(cases[0], 0), "query": seg["queries"][0],
+                    "impl_output": seg["results"][0][1]}, limit=6)
+    return n_checked
+
+
+def replay_world(c):
+    s = c["world_scenario"]
+    cfg = SC.undescribe(s["config"])
+    q = c["query"]
+    perm = c.get("perm") or []
+
+    class OnePerm(Patched):
+        def permutation(self, x):
+            self.perm_log.append(list(perm))
+            return np.array(perm if len(perm) == int(x) else list(range(int(x))))
+    with OnePerm(None) as patch:
+        case = w_scenario(cfg, s["plan"], patch, lambda si, n, probs: [q] if si == s["segment"] else [])
+    if case["anomaly"]:
+        print("could not drive the sampler through the scenario:", case["anomaly"])
+        return 1
+    seg = case["segments"][s["segment"]]
+    status, obs, extra = seg["results"][0]
+    print("history:", w_history_text(case, s["segment"]))
+    print("implementation returns:", status, obs if status != "ok" else [(o[0], [unkey(v) for v in o[1]]) for o in obs])
+    bad = oracle(case["kind"], case["npar"], seg["rows"], seg["probs"], q, status, obs, extra)
+    print("property failures:", bad)
+    return 1 if bad else 0
+
+
+def replay_long(c):
+    g = c["rows_generated"]
+    q = c["query"]
+    perm = c.get("perm") or []
+    real = g.get("real_run")
+    if real:
+        ch0, frows, fprobs = real_long_run(real["kind"], real["seed"], real["npar"], real["target"])
+        rk = rank_map(frows, fprobs)
+        rows, probs = [[rk[v] for v in rw] for rw in frows], [rk[v] for v in fprobs]
+        tag = H_TAG[real["kind"]]
+
+        def conv(a):
+            a = np.asarray(a)
+            return (tuple(int(s) for s in a.shape), [rk.get(v, -1) for v in a.reshape(-1).tolist()])
+    else:
+        rows, probs = long_history(g["gen_seed"], g["n_generated"], g["npar"], g["n"])
+        tag, conv, ch0 = c["sampler"], None, None
+
+    class OnePerm(Patched):
+        def permutation(self, x):
+            self.perm_log.append(list(perm))
+            return np.array(perm if len(perm) == int(x) else list(range(int(x))))
+    with OnePerm(None) as patch:
+        ch = ch0 if real else build(c["sampler"], c["n_parameters"], rows, probs)
+        status, obs, extra = run_query(ch, q, patch, conv=conv)
+    print("implementation returns:", status, obs if status != "ok" else [(o[0], o[1][:8], "...") for o in obs])
+    bad = oracle(tag, c["n_parameters"], rows, probs, q, status, obs, extra)
+    print("property failures:", bad)
+    return 1 if bad else 0
+
+
 # ---------------------------------------------------------------- the run
 def run(rep: C.Report, tier: str) -> int:
     r = C.rng_for(PROP, "cases")
@@ -850,6 +1707,8 @@ def run(rep: C.Report, tier: str) -> int:
     n_queries = 0
     extra_cases, extra_results = [], []
     with Patched(C.rng_for(PROP, "perm")) as patch:
+        # long chains / rarely used options: coqc works on them in the background from here on
+        long_state = long_start(rep, tier, patch)
         for case in cases:
             ch = build(case["kind"], case["npar"], case["rows"], case["probs"])
             res = [run_query(ch, q, patch) for q in case["queries"]]
@@ -894,8 +1753,13 @@ def run(rep: C.Report, tier: str) -> int:
                     rep.violation("C14/exception", f"{case['kind']}: replace_last / re-read failed: {e!r}",
                                   {"case": {"sampler": case["kind"], "rows": case["rows"], "probs": case["probs"]}}, True)
 
-        # history dimension: calls interrupted from inside the posterior, then read out / advanced further
+        # history dimension: histories in which the caller goes on modifying, in place, the objects it gave
+        # to the constructor (coqc in the background) ...
+        world_state = world_start(rep, tier, patch)
+        # ... and calls interrupted from inside the posterior, then read out / advanced further
         n_hist_checked = run_histories(rep, tier, patch)
+        n_world_checked = world_finish(rep, world_state)
+        n_long_checked = long_finish(rep, long_state, patch)
 
     cases = cases + extra_cases
     all_results = all_results + extra_results
@@ -967,7 +1831,9 @@ def run(rep: C.Report, tier: str) -> int:
                     suspicious.append((ci, qis[j]))
             else:
                 suspicious.append((ci, qis[0]))
-    rep.coverage["traces_validated_against_impl"] = n_checked + n_hist_checked
+    rep.coverage["traces_validated_against_impl"] = n_checked + n_hist_checked + n_world_checked + n_long_checked
+    rep.coverage["readouts_validated_after_caller_writes"] = n_world_checked
+    rep.coverage["readouts_validated_on_long_chains"] = n_long_checked
     rep.coverage["readouts_validated_after_interrupted_calls"] = n_hist_checked
     rep.coverage["correspondence_disagreements"] = len(suspicious)
     rep.coverage["histories"] = len(cases)
@@ -1050,11 +1916,26 @@ def run(rep: C.Report, tier: str) -> int:
         "a step runs); doubles of the real chain are mapped to integers by an order-preserving injection; the rows "
         "a completed call adds are read from the sampler's current state (get_last / theta[-1] / walker positions) "
         "right after the call; get_interval is not queried on chains holding equal log-probabilities",
+        "caller-write histories: the caller's objects are float64 / float32 arrays and lists (integer-typed arguments "
+        "are always converted by the pinned constructors); start / starting_positions are modified between the calls, "
+        "widths / bounds / inverse_mass only after the last call (the pinned Bounds object keeps references to the "
+        "caller's arrays: that changes how the sampler samples, not what the read-outs return); a configuration whose "
+        "sampler cannot take a step even untouched is replaced; memory shared in the other direction (views returned "
+        "by the read-outs, the array handed to the posterior) is outside the model",
+        "long chains: values are distinct integers below 2^20 from a seeded generator; arrays longer than 1500 are "
+        "handed to Coq packed (three 20-bit values per Uint63 literal, decoded by Model.ReadoutsWorld.unpack inside "
+        "Coq); GibbsChain and PcaChain share their getters (one of the two per quick run); column-major get_sample / "
+        "get_interval are queried with a few hundred retained rows only (the model transposes with nth)",
+        "real long runs: numpy Generator seeded by the harness; the doubles of the chain are mapped to their ranks "
+        "(order-preserving injection on the values present); the expected chain is read from the sampler's state "
+        "after every call",
     ]
     return rep.finish(
         level="proof",
         checker_cmd="make -C /verif/coq (coqc 8.16.1, full .vo) + coqc on coq/gen/C14/*.v (vm_compute)",
-        trusted_base=C.KERNEL_TB + ["axioms: none (all C14 theorems are closed under the global context)"],
+        trusted_base=C.KERNEL_TB + ["axioms: none (all C14 theorems are closed under the global context)",
+                                    "Coq's primitive 63-bit integers (Uint63) in the correspondence files of the long "
+                                    "chains only (packed arrays); no theorem depends on them"],
         rule="histories with distinct integer samples / log-probabilities injected into GibbsChain, PcaChain, "
              "HamiltonianChain, EnsembleSampler (1-4 parameters); lengths 0..7(10) with every burn 0..n+2 and thin "
              "1..n+2, lengths up to 120 (800) with sampled burn/thin incl. values beyond the end; per (burn, thin): "
@@ -1065,7 +1946,18 @@ def run(rep: C.Report, tier: str) -> int:
              "configurations each, scripted randomness): 0-3 steps, then take_step() interrupted at EVERY evaluation "
              "of the posterior / gradient of that step (<= 10 (40) points) and advance(2-3) interrupted in a later "
              "step, by KeyboardInterrupt or FloatingPointError; all read-outs straight after the interruption and "
-             "again after 1-3 further steps; store shapes seen from inside every evaluation")
+             "again after 1-3 further steps; store shapes seen from inside every evaluation; plus 4 (12) real samplers "
+             "of every kind built from start / widths / bounds / starting_positions / inverse_mass objects (float64 or "
+             "float32 arrays, lists) which the harness, as the caller, goes on modifying IN PLACE between construction, "
+             "steps, an interrupted step and the read-outs (burn = 0 included; keyword, positional and default "
+             "arguments; both estimator types of get_marginal); plus injected histories of 20000-24000 steps for one "
+             "of Gibbs / Pca, Hmc and Ens, one of them 30000-52000 (thorough: 10 histories up to 130000 steps): "
+             "get_marginal(unimodal=True) with burn 0, with just over 20000 retained values, with default arguments, "
+             "with thin 2-3 and with a few hundred retained values, 1 (3) more full-size read-outs, every read-out "
+             "with a few hundred retained values, get_interval with counts 20-400; plus one (five) real sampler "
+             "(seeded generator, adaptation on; an EnsembleSampler with 200-260 walkers in half of the quick runs) "
+             "advanced by take_step() / advance(1) to >= 20000 entries, expected chain recorded from its state after "
+             "every call, same queries")
 
 
 # ---------------------------------------------------------------- replay
@@ -1078,6 +1970,10 @@ def replay(path):
     c = rp["case"]
     if "scenario" in c:
         return replay_scenario(c)
+    if "world_scenario" in c:
+        return replay_world(c)
+    if "rows_generated" in c:
+        return replay_long(c)
     q = c["query"]
     perm = c.get("perm") or []
 
